@@ -45,6 +45,16 @@ func rshape(r *rand.Rand, minRank, maxRank, maxExt int) []int {
 	for i := range s {
 		s[i] = 1 + r.Intn(maxExt)
 	}
+	// rarely a very long vector or matrix (kernels that split their work into blocks of some thousand elements)
+	if n >= 1 && n <= 2 && maxExt >= 4 && r.Intn(60) == 0 {
+		s[r.Intn(n)] = []int{8193, 9000, 16385}[r.Intn(3)]
+		for i := range s {
+			if s[i] < 8000 && s[i] > 2 {
+				s[i] = 2
+			}
+		}
+		return s
+	}
 	// now and then one long axis (the tensor stays below 2048 elements)
 	if n > 0 && maxExt >= 4 && r.Intn(8) == 0 {
 		i := r.Intn(n)
